@@ -21,8 +21,8 @@ RULE = ("case = dense pencil (class in {real symmetric, complex Hermitian, compl
         "real or complex modulus, nmodes None/1..6, sigma None/0/between eigenvalues). Non-trivial = n >= 3 and A not "
         "diagonal. Distinct = sha1 of the canonical case JSON.")
 ASSUMPTIONS = [
-    "eigenvalues simple and separated by construction (dense: gaps >= spread/(2(n-1)); sparse: random densities; only "
-    "exception: the rigid-body cluster of free-free *real symmetric* pencils, handled by eigsh); the "
+    "eigenvalues simple and separated by construction (dense: gaps >= spread/(2(n-1)); sparse: random densities, free-free only for "
+    "the Poisson pencil whose zero eigenvalue is simple); the "
     "set comparison of the sparse path is skipped (label sparse_set_inconclusive) when the reference spectrum has no "
     "clear gap after the nmodes-th closest eigenvalue or a (multiple) spurious bc mode lies in/next to the window",
     "eigenvectors whose bilinear form q^T B q (nearly) vanishes are excluded by construction (|q^T B q| >= 0.05 q^H B q):"
@@ -46,7 +46,7 @@ TOL_EIG_SPARSE = 1e-7
 
 
 def budget(tier):
-    return {"examples": 2400 if tier == "quick" else 40000, "shards": 16, "shrink": 200 if tier == "quick" else 1000}
+    return {"examples": 4000 if tier == "quick" else 60000, "shards": 16, "shrink": 200 if tier == "quick" else 1000}
 
 
 # ----------------------------------------------------------------------------------------------------------------
@@ -89,9 +89,12 @@ def strategy(tier):
              "bc": bc, "bc_side": draw(st.integers(0, 5)), "bc_extra": draw(st.integers(0, 3)),
              "hint": draw(st.booleans()), "sorter": draw(st.sampled_from(["default", "desc", "abs_target"])),
              "payload_seed": draw(SEED)}
-        if c["phys"] == "elast" and c["bc"] != "none":
-            # complex modulus (AssemblePoisson does not accept a complex property). Not for free-free elastic pencils:
-            # their rigid-body modes are a 3/6-fold eigenvalue, on which non-symmetric ARPACK (eigs) can break down
+        if c["phys"] == "elast":
+            # free-free elastic pencils have a 3/6-fold eigenvalue (rigid-body modes) on which ARPACK can fail to
+            # converge (seen: nmodes=3 of 6, and eigs on the complex pencil); the free-free Poisson pencil has a simple
+            # zero eigenvalue and is kept
+            c["bc"] = "side"
+            # complex modulus (AssemblePoisson does not accept a complex property)
             c["cplx"] = draw(st.sampled_from([False, False, True]))
         return c
 
@@ -273,28 +276,31 @@ def _common_checks(bad, tag, A, B, W, Q, sorter_name, target, fn, real_sym):
         if not np.isfinite(nv):
             nv = np.inf
         worst_n = max(worst_n, nv)
+    # residual depends on the eigen-solver that was dispatched (tag); normalisation / order / sign are produced by the
+    # common post-processing loop of EigenSolve._response: no tag, one bucket per sub-claim
     if worst_r > TOL_RES:
         bad(f"residual:{tag}", f"max_i |A q_i - lam_i B q_i| / ((|A|+|lam_i||B|)|q_i|) = {worst_r:.3e}")
     if worst_n > TOL_NORM:
-        bad(f"normalisation:{tag}", f"max_i |q_i^T B q_i - 1| = {worst_n:.3e}")
-    if not _ordered(sorter_name, target, W):
-        bad(f"order:{tag}", f"eigenvalues not in the order of sorter '{sorter_name}': {np.array2string(W, precision=5)}")
+        bad("normalisation", f"max_i |q_i^T B q_i - 1| = {worst_n:.3e} (bilinear form, no conjugation)")
     f = fn if fn is not None else (lambda w, q: np.argsort(w))
-    p = np.asarray(f(W.copy(), Q.copy()))
-    key = {"abs_target": lambda w: np.abs(w - target), "abs": np.abs}.get(sorter_name, lambda w: w)
-    kk = key(W)
-    if p.shape != (k,) or np.max(np.abs(kk[p] - kk), initial=0.0) > 1e-12 * max(1.0, np.max(np.abs(kk), initial=0.0)):
-        bad(f"order_fixpoint:{tag}", f"sorting_fn(W_out, Q_out) = {p.tolist()} is not the identity")
+    if not _ordered(sorter_name, target, W):
+        bad("order", f"eigenvalues not in the order of sorter '{sorter_name}': {np.array2string(W, precision=5)}")
+    else:
+        p = np.asarray(f(W.copy(), Q.copy()))
+        key = {"abs_target": lambda w: np.abs(w - target), "abs": np.abs}.get(sorter_name, lambda w: w)
+        kk = key(W)
+        if p.shape != (k,) or np.max(np.abs(kk[p] - kk), initial=0.0) > 1e-12 * max(1.0, np.max(np.abs(kk), initial=0.0)):
+            bad("order", f"sorting_fn(W_out, Q_out) = {p.tolist()} is not the identity")
     if real_sym:
         if np.iscomplexobj(Q):
             if np.max(np.abs(Q.imag), initial=0.0) > 0:
-                bad(f"sign:{tag}", "real symmetric problem returned complex eigenvectors")
+                bad("sign", "real symmetric problem returned complex eigenvectors")
         else:
             m = Q.mean(axis=0)
             lim = -1e-12 * np.max(np.abs(Q), axis=0, initial=0.0)
             if np.any(m < lim):
                 i = int(np.argmin(m - lim))
-                bad(f"sign:{tag}", f"eigenvector {i} has negative mean entry {m[i]:.3e}")
+                bad("sign", f"eigenvector {i} has negative mean entry {m[i]:.3e}")
 
 
 def _check_dense(case):
